@@ -2,8 +2,8 @@
 open Util
 let case oc stream (s : string) =
   let b = bytes_of_string s in
-  emit oc (Ob [ "stream", S stream; "in", S (hex s);
-                "exp", S (hexb (Model.escape b)); "exp_fb", S (hexb (Model.escape_fallback b)) ])
+  emit oc (Ob [ "stream", JS stream; "in", JS (hex s);
+                "exp", JS (hexb (Model.escape b)); "exp_fb", JS (hexb (Model.escape_fallback b)) ])
 
 let utf8_samples = [ "h\xc3\xa9llo <b>"; "\xe2\x82\xac & \xf0\x9f\x98\x80 'q'"; "\xff\xfe<\x80>"; "\xc3"; "a\x00b&" ]
 
